@@ -25,7 +25,8 @@ def elem_names(prefix, shape):
 class Inp:
     """one tensor input of an op"""
 
-    def __init__(self, label, shape, differentiable=True, param=False, **dom):
+    def __init__(self, label, shape, differentiable=True, param=False, concrete=None, **dom):
+        self.concrete = concrete    # a fixed (integer) array instead of symbolic data
         self.label = label
         self.shape = tuple(shape)
         self.differentiable = differentiable
@@ -124,6 +125,12 @@ class OpCase:
         ts, arrays, names = [], [], {}
         for i, sp in enumerate(specs):
             dt = np.dtype(dtypes[i]) if dtypes else dtype
+            if sp.concrete is not None:
+                a = np.array(sp.concrete)
+                ts.append(Tn(a))
+                arrays.append(a)
+                names[sp.label] = []
+                continue
             a = env.arr(sp.label, sp.shape, dt, **sp.dom)
             layout = self.variant.get("layout")
             if layout and i == 0 and len(sp.shape) >= 2:
